@@ -45,7 +45,7 @@ __CPROVER_ensures((__CPROVER_return_value == -EEAV_LPART_EMPTY) == (g_len == 0))
 /* ... and the byte there is not ASCII (an ASCII byte always decodes); one symbolic read, affordable */
 __CPROVER_ensures((__CPROVER_return_value == -EEAV_LPART_INVALID_UTF8) ==> (g_pos < g_len && BYTE_AT(start + g_pos) >= 0x80))
 __CPROVER_ensures(__CPROVER_return_value == -EEAV_LPART_CTRL_CHAR ==> (g_cur >= 0 && (g_cur < 32 || g_cur == 127)))
-__CPROVER_ensures(__CPROVER_return_value == -EEAV_LPART_TOO_MANY_DOTS ==> (g_cur == '.' && g_prevch == '.'))
+__CPROVER_ensures(__CPROVER_return_value == -EEAV_LPART_TOO_MANY_DOTS ==> (g_cur == '.' && g_prevch == '.' && g_pos >= 2))
 __CPROVER_ensures(__CPROVER_return_value == -EEAV_LPART_MISPLACED_DOT ==> (g_cur == '.' && (g_prevch == -1 || g_pos == g_len)))
 __CPROVER_ensures(__CPROVER_return_value == -EEAV_LPART_SPECIAL ==> (g_state == L_DEAD && ((g_cur <= 127 && ((L_IS_SPECIAL(g_cur) && g_cur != '"' && g_cur != '.') || g_cur == ' ' || L_IS_RFC20_CHAR(g_cur))) || g_cur > 127)))
 __CPROVER_ensures(__CPROVER_return_value == -EEAV_LPART_MISPLACED_QUOTE ==> (g_cur == '"' || g_prevch == '"'))
